@@ -27,6 +27,7 @@ def run(rep):
     rep.guard(b12, rep, w)
     rep.guard(b13, rep, w)
     rep.guard(b14, rep, w)
+    rep.guard(b15, rep, w)
     import c06
     rep.guard(c06.s12, rep, w, 'C04')   # the emitted Pop / CloseUpvalue sequence matches the stack from the top down
     import c04_narrow
@@ -911,6 +912,10 @@ def b12(rep, w):
     the table, which would let two different values (two functions with equal code but different constants of their own) share a slot."""
     r = rep.rule('B12', 'add_constant returns a new index or the index its value-keyed map holds for that value', floor=1)
     f = w.require_fn('yarel::chunk::Chunk::add_constant', 'C04')
+    # the map that answers "is this constant there already" is keyed by the value itself (its own equality), not by a digest of it
+    maps = [c_.tstr(fd['t']) for c_ in [w.yarel] for fd in c_.adts['yarel::chunk::Chunk']['variants'][0]['fields'] if 'HashMap<' in c_.tstr(fd['t'])]
+    r.check(all(m_.replace('std::collections::', '').startswith('HashMap<value::Value,') or m_.startswith('std::collections::HashMap<value::Value,') for m_ in maps) and bool(maps),
+            'the constant map is keyed by Value', 'the chunk\'s constant map is keyed by %s rather than by the value: two different constants with the same digest share a slot' % maps, f.loc())
     org = origins(f)
     roots = org.get(0, ())
     bad = []
@@ -1066,6 +1071,27 @@ def b14(rep, w):
             r.check(bool(roots) and not bad, '%s / constant operand #%d comes from make_constant / identifier_constant' % (f.path.replace(P, ''), k),
                     '%s emits a constant operand whose index comes from %s, not from adding the constant to the chunk being compiled: the slot may belong to another function\'s '
                     'constant table (the instruction then loads whatever that slot holds here)' % (f.path, bad), f.loc(t.get('sp')))
+
+
+def b15(rep, w):
+    """code that has been emitted stays: the compiler records positions in it (jump placeholders, loop starts, handler offsets), so nothing takes
+    bytes back out of Chunk.code or the line table - no pop / truncate / remove / drain / clear on them anywhere. (A peephole that deletes "the
+    LogicalNot just emitted" by a remembered offset deletes some other instruction when the offset is stale.)"""
+    r = rep.rule('B15', 'emitted bytecode is never taken back (no shrinking operation on Chunk.code / the line table)', floor=0)
+    from c16 import operand_fields
+    n = 0
+    for f in sorted(w.yarel.fns.values(), key=lambda x: x.path):
+        org = None
+        for bi, t in f.calls():
+            nm = strip_generics(callee_name(t) or '')
+            if nm.startswith('std::vec::Vec') and nm.rsplit('::', 1)[-1] in ('pop', 'truncate', 'remove', 'drain', 'clear', 'swap_remove', 'split_off', 'retain', 'dedup') and t['args']:
+                org = org or origins(f)
+                flds = operand_fields(f, org, t['args'][0])
+                if 'code' in flds and ('chunk' in flds or f.path.startswith('yarel::chunk::')):
+                    n += 1
+                    r.bad('%s / %s on the code vector' % (f.path.replace('yarel::', ''), nm.rsplit('::', 1)[-1]),
+                          '%s removes bytes from emitted code: positions recorded earlier (jumps to patch, loop starts, handler offsets) now name other instructions' % f.path, f.loc(t.get('sp')))
+    r.ok('census of shrinking operations on emitted code: %d' % n)
 
 
 # ---- B5 -------------------------------------------------------------------------------------------------------------
